@@ -300,7 +300,7 @@ def run(tier, t0):
     maxn = 16 if tier == 'quick' else 64
     pairs = [(n, i) for n in range(1, maxn + 1) for i in range(n)]
     chunks = [pairs[k::W] for k in range(W)]
-    nr, nk = (12, 6) if tier == 'quick' else (400, 150)
+    nr, nk = (90, 40) if tier == 'quick' else (4000, 1200)
     tasks = [(w_grid, dict(pairs=ch)) for ch in chunks] + [(w_random, dict(examples=nr)) for _ in range(W // 2)] + [(w_keypath, dict(examples=nk)) for _ in range(W // 4)]
     m = core.parallel(PID, tasks)
     m.exhaustive = False
